@@ -102,7 +102,7 @@ def selftest(ctx, items, binary):
         ctx.inconclusive('self-test: a corrupted trace was accepted (binding broken)')
 
 
-def run_family_check(ctx, pid, n_quick, n_thorough, schedules_quick=1, schedules_thorough=3, profile=None, extra_items=None):
+def run_family_check(ctx, pid, n_quick, n_thorough, schedules_quick=1, schedules_thorough=3, profile=None, extra_items=None, detail_fn=None):
     rng = random.Random(ctx.seed * 7919 + sum(map(ord, pid)))
     profile = profile or PROFILES[pid]
     n = n_quick if ctx.quick else n_thorough
@@ -118,7 +118,7 @@ def run_family_check(ctx, pid, n_quick, n_thorough, schedules_quick=1, schedules
         it = items[f['item']]
         rp = {'kind': 'scenario', 'item': {k: it[k] for k in ('wf', 'oc', 'script', 'input', 'schedule', 'extra') if k in it},
               'want': it.get('_want'), 'got': it.get('_got'), 'line': f.get('line')}
-        ctx.add(f['prop'], f['rule'], f['detail'], rp)
+        ctx.add(f['prop'], f['rule'], detail_fn(f, it) if detail_fn else f['detail'], rp)
     distinct = len({json.dumps([vlib.strip_wf(it['wf']), it['oc']], sort_keys=True) for it in items if len(it['wf']['steps']) > 1 or it['wf']['outputs']})
     ctx.cov(evaluations=stats['runs'], distinct_nontrivial=distinct,
             states=stats.get('meaning_states', 0) + stats.get('trace_states', 0),
